@@ -460,6 +460,7 @@ pub fn one_run(ctx: &Ctx, out: &mut Outcome, run_seed: u64) {
         link_down: vec![LinkCfg::from_profile(victim_profile, &mut r), LinkCfg::clean()],
         shuffle_phases: r.chance(1, 2),
         skip_send_pct: 0,
+        library_default: false,
     };
     let mut sim = Sim::new(cfg, run_seed);
     sim.log_on = true;
